@@ -628,6 +628,26 @@ func (p *probe) run(ctx vivid.ActorContext, prog []Step, curID int) {
 			ctx.Reply(&Msg{ID: st.ID, Do: st.Do})
 		case "replyerr":
 			ctx.Reply(errors.New("verif: reply error"))
+		case "replyafter":
+			// reply st.N times (ids st.ID, st.ID+1, ...) after st.D of virtual time
+			sender := ctx.Sender()
+			n := st.N
+			if n <= 0 {
+				n = 1
+			}
+			if st.D == 0 {
+				for i := 0; i < n; i++ {
+					ctx.Reply(&Msg{ID: st.ID + i})
+				}
+			} else {
+				d, id := time.Duration(st.D), st.ID
+				go func() {
+					time.Sleep(d)
+					for i := 0; i < n; i++ {
+						w.Sys.Tell(sender, &Msg{ID: id + i})
+					}
+				}()
+			}
 		case "ask":
 			w.Ask(who, ctx, w.Resolve(st.To, st.Via, p, ctx), st)
 		case "kill":
